@@ -740,8 +740,8 @@ class Note:
                 duration = DURATION_TO_STR[self.duration]
                 result += f".{duration}"
             else:
-                if isinstance(self.duration, int):
-                    result += f".augment({self.duration})"
+                if isinstance(self.duration, int) or self.duration.denominator == 1:
+                    result += f".augment({int(self.duration)})"
                 else:
                     result += f".augment(frac({self.duration.numerator}, {self.duration.denominator}))"
 
